@@ -276,6 +276,89 @@ theorem popBack_empty_ok {h : Heap} {l : Nat} {B : Rings}
   have hp : h.prev l = l := by have := r.back l (by simp); rw [hn] at this; exact this
   unfold listPopBack; rw [hp]; exact unlink_single_ok ok
 
+/-! ### splice and clear -/
+
+theorem nodeUnlink_of_self (g : Heap) (l : Nat) (hn : g.next l = l) : nodeUnlink g l = g := by
+  unfold nodeUnlink; simp [hn]
+
+/-- on a family where `l` is alone and the source has at least one element, the
+six assignments of `unlink_and_move_all_nodes_from_other` compute the same heap
+as `dlist_insert_instead(l, oth)` -/
+theorem splice_eq_insertInstead {h : Heap} {l oth y : Nat} {ys : List Nat} {B : Rings}
+    (ok : RingsOK h ([l] :: (oth :: y :: ys) :: B)) :
+    listSplice h l oth = dlistInsertInstead h l oth := by
+  obtain ⟨⟨a', xs', e, rl⟩, d1, ok1⟩ := ok.head
+  injection e with e1 e2; subst e1; subst e2
+  obtain ⟨⟨a', xs', e, ro⟩, _, _⟩ := ok1.head
+  injection e with e1 e2; subst e1; subst e2
+  have hl : l ∉ oth :: y :: ys := d1 _ (by simp) l (by simp)
+  have hln : h.next l = l := rl.fwd
+  have hfw := ro.fwd; simp only [Seg] at hfw
+  have hno : h.next oth = y := hfw.1
+  have hzmem : h.prev oth ∈ oth :: y :: ys := (ro.prev_next oth (by simp)).2
+  have hzn : h.next (h.prev oth) = oth := (ro.prev_next oth (by simp)).1
+  have hnd := ro.nodup
+  have hoy : oth ≠ y := by simp only [List.nodup_cons, List.mem_cons, not_or] at hnd; exact hnd.1.1
+  have hzo : h.prev oth ≠ oth := by
+    intro e; rw [e, hno] at hzn; exact hoy hzn.symm
+  have hlo : l ≠ oth := fun e => hl (by simp [e])
+  have hly : l ≠ y := fun e => hl (by simp [e])
+  have hlz : l ≠ h.prev oth := fun e => hl (e ▸ hzmem)
+  have hu : nodeUnlink h l = h := by simp [nodeUnlink, hln]
+  have hoe : h.next oth ≠ oth := by rw [hno]; exact fun e => hoy e.symm
+  have hzo' : oth ≠ h.prev oth := Ne.symm hzo
+  have hlo' : oth ≠ l := Ne.symm hlo
+  have hyl : y ≠ l := Ne.symm hly
+  have hzl : h.prev oth ≠ l := Ne.symm hlz
+  have hyo : y ≠ oth := Ne.symm hoy
+  apply Heap.ext' <;> funext v <;>
+    simp only [listSplice, hu, hoe, if_false, dlistInsertInstead, dlistAddPrev, dlistAdd, dlistDelInit, dlistInit,
+      dlistDelRaw, Heap.setNext, Heap.setPrev, hno]
+  · by_cases e1 : v = l <;> by_cases e2 : v = oth <;> by_cases e3 : v = h.prev oth <;> simp_all
+  · by_cases e1 : v = l <;> by_cases e2 : v = oth <;> by_cases e3 : v = y <;> simp_all
+
+theorem splice_ok {h : Heap} {l oth y : Nat} {ys : List Nat} {B : Rings}
+    (ok : RingsOK h ([l] :: (oth :: y :: ys) :: B)) :
+    RingsOK (listSplice h l oth) ([oth] :: (l :: y :: ys) :: B) := by
+  rw [splice_eq_insertInstead ok]; exact insertInstead_ok ok
+
+theorem splice_from_empty_ok {h : Heap} {l oth : Nat} {B : Rings}
+    (ok : RingsOK h ([l] :: [oth] :: B)) : listSplice h l oth = h := by
+  obtain ⟨⟨a', xs', e, rl⟩, _, ok1⟩ := ok.head
+  injection e with e1 e2; subst e1; subst e2
+  obtain ⟨⟨a', xs', e, ro⟩, _, _⟩ := ok1.head
+  injection e with e1 e2; subst e1; subst e2
+  have hln : h.next l = l := rl.fwd
+  have hno : h.next oth = oth := ro.fwd
+  simp [listSplice, nodeUnlink, hln, hno]
+
+theorem clear_ok {l : Nat} : ∀ (xs : List Nat) (fuel : Nat) (B : Rings) (h : Heap),
+    RingsOK h ((l :: xs) :: B) → xs.length < fuel →
+    RingsOK (listClear h l fuel) ([l] :: (xs.map fun x => [x]) ++ B)
+  | [], fuel, B, h, ok, hf => by
+    obtain ⟨⟨a', xs', e, r⟩, _, _⟩ := ok.head
+    injection e with e1 e2; subst e1; subst e2
+    have hn : h.next l = l := r.fwd
+    match fuel, hf with
+    | f + 1, _ => simpa [listClear, hn] using ok
+  | x :: xs, fuel, B, h, ok, hf => by
+    obtain ⟨⟨a', xs', e, r⟩, _, _⟩ := ok.head
+    injection e with e1 e2; subst e1; subst e2
+    have hfw := r.fwd; simp only [Seg] at hfw
+    have hne : h.next l ≠ l := by
+      rw [hfw.1]
+      have := r.nodup; simp only [List.nodup_cons, List.mem_cons, not_or] at this
+      exact fun e => this.1.1 e.symm
+    match fuel, hf with
+    | f + 1, hf =>
+      simp only [listClear, hne, ne_eq, not_false_eq_true, if_true]
+      have h1 := popFront_ok ok
+      have h2 := clear_ok xs f ([x] :: B) (listPopFront h l) (swap12 h1) (by simp at hf ⊢; omega)
+      -- [l] :: singles xs ++ ([x] :: B)  ~perm~  [l] :: [x] :: singles xs ++ B
+      refine h2.perm ?_
+      simp only [List.map_cons, List.cons_append]
+      exact List.Perm.cons _ List.perm_middle
+
 /-- STEP REFINEMENT: every operation of the reference semantics is matched by
 the heap operation: well-formed family before ⇒ well-formed family after. -/
 theorem step_refines_c {h : Heap} {A A' : Rings} {op : Op} (ok : RingsOK h A) (st : AStep A op A') :
@@ -324,5 +407,33 @@ theorem step_refines_c {h : Heap} {A A' : Rings} {op : Op} (ok : RingsOK h A) (s
   | xpopFrontEmpty s => exact popFront_empty_ok (ok.same s)
   | xpopBack s => exact popBack_ok (ok.same s)
   | xpopBackEmpty s => exact popBack_empty_ok (ok.same s)
+  | @xsplice l x xs oth y ys B s =>
+    have h0 := ok.same s
+    have h1 := unlink_ok h0
+    have hs : listSplice h l oth = listSplice (nodeUnlink h l) l oth := by
+      obtain ⟨⟨a', xs', e, r1⟩, _, _⟩ := h1.head
+      injection e with e1 e2; subst e1; subst e2
+      have hn : (nodeUnlink h l).next l = l := r1.fwd
+      have : nodeUnlink (nodeUnlink h l) l = nodeUnlink h l := nodeUnlink_of_self _ l hn
+      simp only [listSplice, this]
+    simp only [exec]; rw [hs]
+    exact splice_ok (h1.perm (List.Perm.cons _ (List.Perm.swap _ _ _)))
+  | xspliceIntoEmpty s => exact splice_ok (ok.same s)
+  | @xspliceFromEmpty l x xs oth B s =>
+    have h0 := ok.same s
+    have h1 := unlink_ok h0
+    have h2 := h1.perm (List.Perm.cons _ (List.Perm.swap _ _ _))
+    have e := splice_from_empty_ok h2
+    have hs : listSplice h l oth = listSplice (nodeUnlink h l) l oth := by
+      obtain ⟨⟨a', xs', e, r1⟩, _, _⟩ := h1.head
+      injection e with e1 e2; subst e1; subst e2
+      have hn : (nodeUnlink h l).next l = l := r1.fwd
+      have : nodeUnlink (nodeUnlink h l) l = nodeUnlink h l := nodeUnlink_of_self _ l hn
+      simp only [listSplice, this]
+    simp only [exec]; rw [hs, e]; exact h1
+  | xspliceBothEmpty s =>
+    have h0 := ok.same s
+    simp only [exec]; rw [splice_from_empty_ok h0]; exact h0
+  | xclear s hlen => exact clear_ok _ _ _ _ (ok.same s) hlen
 
 end Igris.C01
